@@ -204,19 +204,96 @@ def adversarial(W, n_add):
     return s[:n_add]
 
 
-def record(n, seed, thorough):
+def harmonic(W, levels, rng):
+    """The adversary of the size bound: bucket j plants W // h keys with h hits each (h = levels + 1 - j), every one of
+    them just surviving all compactions so far; then fresh keys. The lossy-counting mechanism itself then tracks about
+    W * (1/2 + 1/3 + ...) + W keys."""
+    s, nxt, first = [], 1, None
+    for j in range(levels):
+        hits = levels + 1 - j
+        bucket = []
+        for _ in range(W // hits):
+            if first is None:
+                first = nxt
+            bucket += [nxt] * hits
+            nxt += 1
+        if first is None:
+            first, nxt = nxt, nxt + 1
+        bucket += [first] * (W - len(bucket))
+        if rng.random() < 0.5:
+            rng.shuffle(bucket)
+        s += bucket
+    for _ in range(W - 1):
+        s.append(nxt)
+        nxt += 1
+    s.append(first)
+    # keep going: later buckets re-hit a random part of what survives and plant new keys
+    for _ in range(rng.randint(0, 3)):
+        bucket = [rng.randint(1, nxt - 1) for _ in range(W // 2)]
+        while len(bucket) < W:
+            bucket.append(nxt)
+            nxt += 1
+        s += bucket
+    return s
+
+
+def tlc_adversaries(stats):
+    """LossyBound.tla: TLC searches the margin-bag abstraction of the mechanism for a stream that makes it track more than
+    2W keys. Each counterexample (W = 3..6) is turned into key additions; W = 2 must hold within its bounds."""
+    import re
+    r2 = tlc_must_pass(SPECDIR, "LossyBound.tla", "LossyBound_w2.cfg", workers=core.NCPU, timeout=900)
+    stats.add_tlc(r2)
+    out = []
+    for W in (3, 4, 5, 6):
+        r = core.tlc(SPECDIR, "LossyBound.tla", "LossyBound_w%d.cfg" % W, workers=core.NCPU, timeout=900)
+        if r.ok or r.invariant_violated != "StaysSmall":
+            if r.ok:
+                stats.add_tlc(r)
+                continue            # the mechanism model stays within the bound here: nothing to replay
+            raise core.MachineryError("LossyBound W=%d: %s" % (W, r.out[-800:]))
+        acts = re.findall(r'act = <<"(fresh|hit)", (\d+)>>', r.out)
+        keys, stream, nxt = [], [], 1          # keys: [key, margin]
+        for n_, (a, d) in enumerate(acts, 1):
+            if a == "fresh":
+                keys.append([nxt, 0])
+                stream.append(nxt)
+                nxt += 1
+            else:
+                k = next(k for k in keys if k[1] == int(d))
+                k[1] += 1
+                stream.append(k[0])
+            if n_ % W == 0:
+                keys = [[k, m - 1] for k, m in keys if m > 0]
+        out.append((W, stream))
+    stats.extra["size_bound_counterexamples_from_TLC"] = {str(W): len(st_) for W, st_ in out}
+    return out
+
+
+HARMONIC = [(1, 6), (3, 20), (1, 7), (1, 10), (1, 10), (1, 20), (1, 13)]
+
+
+def record(n, seed, thorough, harmonic_only=False, given=None):
     rng = random.Random(seed)
     traces = []
-    for t in range(n):
+    for t in range(len(given) if given else n):
         tp, tq = rng.choice(THRESH[:8] if not thorough else THRESH)
         if t < len(THRESH) and (thorough or THRESH[t][1] <= 100):
             tp, tq = THRESH[t]
+        if harmonic_only:
+            tp, tq = HARMONIC[t % len(HARMONIC)]
         W = tq // tp
         drv = Driver(rng.choice(list(CONCS)))
         n_add = min(3000 if thorough else 600, 40 * W) if W <= 100 else (12000 if thorough else 2500)
-        kind = "adversarial" if t % 3 == 0 else rng.choice(["uniform", "zipf", "few"])
+        kind = "adversarial" if t % 3 == 0 else "harmonic" if t % 3 == 1 and W <= 100 else rng.choice(["uniform", "zipf", "few"])
+        if harmonic_only:
+            kind = "harmonic"
+        if given:
+            W, gstream = given[t]
+            tp, tq, kind = 1, W, "harmonic"
         if kind == "adversarial":
             s = adversarial(W, n_add)
+        elif kind == "harmonic":
+            s = list(gstream) if given else harmonic(W, rng.randint(4, 9) if harmonic_only else rng.randint(2, 9), rng)
         elif kind == "uniform":
             s = [rng.randint(1, 3 * W + 3) for _ in range(n_add)]
         elif kind == "few":
@@ -232,6 +309,8 @@ def record(n, seed, thorough):
         while i < len(s):
             step += 1
             c = rng.random()
+            if kind == "harmonic":
+                c *= 0.9            # keep the stream as built: add / update(iterable) only
             if c < 0.8:
                 op = {"op": "add", "k": s[i], "ks": [], "kc": []}
                 i += 1
@@ -251,7 +330,7 @@ def record(n, seed, thorough):
             if op["op"] == "update_counts" and variant not in ("update_kw",):
                 variant = "update_map"
             tc, got = drv.step(tc, op, variant)
-            full = (step % 25 == 0) or i >= len(s) or nkeys <= 12
+            full = (step % 25 == 0) or i >= len(s) or nkeys <= 12 or (kind == "harmonic" and nkeys <= 80)
             touched = sorted(set(stream(op)))
             o = drv.observe(tc, got, n=nkeys, sparse=None if full else touched)
             ev = {"op": op, "variant": variant, "r": got["r"], "full": full}
@@ -262,7 +341,7 @@ def record(n, seed, thorough):
                 ev.update({k: o[k] for k in ("total", "len", "common", "uncommon", "rep", "views_ok")})
                 ev["why"] = o["views_why"]
             evs.append(ev)
-        traces.append({"tp": tp, "tq": tq, "n": nkeys, "kind": kind, "conc": drv.name, "ev": evs})
+        traces.append({"tp": tp, "tq": tq, "n": nkeys, "kind": kind, "conc": drv.name, "ev": evs, "mech": kind == "harmonic" or nkeys <= 120})
     return traces
 
 
@@ -280,7 +359,8 @@ def main(tier, seed):
         core.replay_graph_generic(g, Driver(cn), verdict, stats)
     core.replay_walks(g, Driver("str"), verdict, stats, n_walks=2000 if thorough else 300, length=16, seed=seed)
     canary(stats)
-    traces = record(60 if thorough else 24, seed, thorough)
+    traces = record(60 if thorough else 24, seed, thorough) + record(28 if thorough else 7, seed + 5, thorough, harmonic_only=True)
+    traces += record(0, seed + 6, thorough, given=tlc_adversaries(stats))
     core.validate_traces_generic(SPECDIR, "LossyTrace.tla", "LossyTrace.cfg", traces, stats, verdict, Driver.subject,
                                  shards=min(core.NCPU, len(traces)),
                                  sig_extra=lambda tr, ev: {"what": ("views:" + ev["why"]) if not ev["views_ok"] else "bounds"})
@@ -299,7 +379,7 @@ def main(tier, seed):
 
 def canary(stats):
     tr = record(1, 12345, False)[0]
-    good = {k: tr[k] for k in ("tp", "tq", "n", "kind", "conc")}
+    good = {k: tr[k] for k in ("tp", "tq", "n", "kind", "conc", "mech")}
     good["ev"] = tr["ev"][:30]
     bad = json.loads(json.dumps(good))
     for ev in bad["ev"][10:]:
